@@ -78,42 +78,61 @@ func (n *vNet) AddNode(v cert.Version, name, networks string, overrides m) *vNod
 
 func (n *vNet) Start() {
 	for _, nd := range n.Nodes {
-		nd := nd
 		nd.Ctrl.Start()
-		udpc, tunc := nd.Ctrl.GetUDPTxChan(), nd.Ctrl.GetTunTxChan()
-		go func() {
-			for {
-				select {
-				case <-nd.stop:
-					return
-				case p, ok := <-udpc:
-					if !ok || p == nil {
-						udpc = nil
-						continue
-					}
-					d := &vDatagram{From: p.From, To: p.To, Data: append([]byte(nil), p.Data...), Node: nd.Name}
-					_ = d.H.Parse(d.Data)
-					p.Release()
-					n.mu.Lock()
-					d.ID = len(n.Store)
-					n.Store = append(n.Store, d)
-					n.mu.Unlock()
-					nd.mu.Lock()
-					nd.udpOut = append(nd.udpOut, d)
-					nd.mu.Unlock()
-				case b, ok := <-tunc:
-					if !ok {
-						tunc = nil
-						continue
-					}
-					nd.mu.Lock()
-					nd.tunOut = append(nd.tunOut, append([]byte(nil), b...))
-					nd.mu.Unlock()
-				}
-			}
-		}()
+		n.drain(nd)
 	}
 	synctest.Wait()
+}
+
+// drain starts the goroutine that moves what the node emits (udp, tun) into harness queues.
+func (n *vNet) drain(nd *vNode) {
+	udpc, tunc := nd.Ctrl.GetUDPTxChan(), nd.Ctrl.GetTunTxChan()
+	go func() {
+		for {
+			select {
+			case <-nd.stop:
+				return
+			case p, ok := <-udpc:
+				if !ok || p == nil {
+					udpc = nil
+					continue
+				}
+				d := &vDatagram{From: p.From, To: p.To, Data: append([]byte(nil), p.Data...), Node: nd.Name}
+				_ = d.H.Parse(d.Data)
+				p.Release()
+				n.mu.Lock()
+				d.ID = len(n.Store)
+				n.Store = append(n.Store, d)
+				n.mu.Unlock()
+				nd.mu.Lock()
+				nd.udpOut = append(nd.udpOut, d)
+				nd.mu.Unlock()
+			case b, ok := <-tunc:
+				if !ok {
+					tunc = nil
+					continue
+				}
+				nd.mu.Lock()
+				nd.tunOut = append(nd.tunOut, append([]byte(nil), b...))
+				nd.mu.Unlock()
+			}
+		}
+	}()
+}
+
+// PumpOnce delivers everything currently in flight once (what that provokes stays in flight).
+func (n *vNet) PumpOnce() int {
+	moved := 0
+	var batch []*vDatagram
+	for _, nd := range n.sorted() {
+		batch = append(batch, nd.TakeUDP()...)
+	}
+	for _, d := range batch {
+		if n.Deliver(d) {
+			moved++
+		}
+	}
+	return moved
 }
 
 // Stop stops all nodes and the drainers; must be called before the bubble is left.
